@@ -54,7 +54,7 @@ CLAIMED = {
             "Trusted: z3, symx; the twin-kernel assumption is validated on every path witness against the real extension, not trusted. No Rust verifier exists in the sandbox; kernels are heap-backed f64/pyo3 code outside the reach of an MIR->SMT translation here.",
             "DESIGN.md 4/C12 and 6"),
     "C13": ("symbolic execution of kruskal (Python back-end) and prim with every edge weight an unbounded SMT Real; minimality against every spanning tree/forest of the multigraph via z3",
-            "Bounded model checking: every simple graph on <=4 nodes plus named multigraphs, all weights: n-1 input edges, acyclic, spanning, objective = total weight <= every spanning tree; disconnected -> INFEASIBLE / minimum forest with allow_forest.",
+            "Bounded model checking: every simple graph on <=4 nodes plus named multigraphs, all weights, plus 7-node union-by-rank graphs (unequal-rank merges; weights symbolic in list order): n-1 input edges, acyclic, spanning, objective = total weight <= every spanning tree; disconnected -> INFEASIBLE / minimum forest with allow_forest.",
             GEN_NOTE, "DESIGN.md 4/C13"),
     "C14": ("symbolic execution of strongly_connected_components/topological_sort/condense (+_edges python variants) with every potential arc a symbolic Bool read through the neighbour callback (solver-enumerated digraphs); oracle = transitive closure",
             "Bounded model checking (exhaustive, solver-driven, of a discrete structure): every digraph on 3 nodes (all node orders) and every loop-free digraph on 4 nodes: SCCs are the mutual-reachability classes listed sinks-first, topological order iff acyclic, condensation edges exactly as defined; outside-neighbour and duplicate variants.",
